@@ -111,8 +111,9 @@ def scenarios() -> List[Tuple[str, List[Line], Callable[[Any], Dict[str, Any]]]]
         (0, [k("TYPE", "type"), k("IDENTIFIER", "Stamp", "def:Stamp"), k("=", "="), I7]),
         (0, [k("CONST", "const"), k("IDENTIFIER", "LIMIT", "def:LIMIT"), k("=", "="), k("INT_LITERAL", 3)]),
         (0, [k("OPTION", "option"), k("IDENTIFIER", "c", "def:c.name_prefix"), k(".", "."), k("IDENTIFIER", "name_prefix"), k("=", "="), k("STRING_LITERAL", "x", None, '"x"')]),
-        (0, [k("TYPEDEF", "typedef"), BOOL, k("IDENTIFIER", "Flag", "def:Flag")])],
-        lambda p: {"Stamp": p.members["Stamp"], "LIMIT": p.members["LIMIT"], "c.name_prefix": p.members["c.name_prefix"], "Flag": p.members["Flag"]}))
+        (0, [k("TYPEDEF", "typedef"), BOOL, k("IDENTIFIER", "Flag", "def:Flag")]),
+        (0, [k("CONST", "const"), k("IDENTIFIER", "COPY", "def:COPY"), k("=", "="), k("IDENTIFIER", "LIMIT", "ref:LIMIT@copy")])],
+        lambda p: {"Stamp": p.members["Stamp"], "LIMIT": p.members["LIMIT"], "c.name_prefix": p.members["c.name_prefix"], "Flag": p.members["Flag"], "COPY": p.members["COPY"]}))
     S.append(("nested+references", [
         PROTO,
         (0, [k("CONST", "const"), k("IDENTIFIER", "CAP", "def:CAP"), k("=", "="), k("INT_LITERAL", 2)]),
